@@ -221,6 +221,10 @@ func c10Exec(op string) string {
 			}
 		}
 	}
+	if note == "" && sep == ":" && hashStr(op)%3 == 0 {
+		// the wrappers named among the observation points, beside decode - update - encode
+		note = wrapUpdate(before.(map[string]interface{}), nv, path, subs)
+	}
 	return "ok " + enc(m) + " " + fmt.Sprint(cnt) + " | " + note
 }
 
@@ -369,6 +373,7 @@ func c10Gen(r *Rng, n int) []string {
 func init() {
 	register(&Prop{
 		ID:        "C10",
+		Ambient:   ambientQueryOpts,
 		Rule:      "Maps as for C07; wildcard/plain paths derived from the Map; the key is the path's last key (50%) or another key of the alphabet (both addressing forms); new values as single-entry maps (scalars, maps, lists) or 'key:value[:type]' strings incl. malformed ones; sub-keys in 30% of cases; non-trivial = count > 0; distinct = distinct op lines",
 		Gen:       c10Gen,
 		Exec:      c10Exec,
